@@ -142,8 +142,8 @@ def _run(ctx):
         run_and_validate(ctx, exe, ["script", sp, "@OUT", "guard"], tr, "%d model cases, guarded buffers" % len(cases), count_as="replay")
     #    ... and call sequences of the serializer model
     behs = ctx.tlc_gen(SPEC, "Gen_Serializer.tla", "Gen_Serializer_bfs.cfg", jvm=JVM)
-    deep = ctx.tlc_gen(SPEC, "Gen_Serializer.tla", "Gen_Serializer.cfg", simulate=(1000000, 10), timeout=6 if quick else 40, jvm=JVM,
-                       limit=3000 if quick else 60000, workers=4)
+    deep = ctx.tlc_gen(SPEC, "Gen_Serializer.tla", "Gen_Serializer.cfg", simulate=(1000000, 10), timeout=8 if quick else 40, jvm=JVM,
+                       limit=3000 if quick else 60000, workers=2)
     ctx.notes.append("Gen_Serializer: %d call sequences of length 3 (exhaustive, BFS) + %d random sequences of length 10" % (len(behs), len(deep)))
     ctx.sample({"kind": "serializer model behaviour replayed on the real classes", "script": deep[0]})
     sp = ctx.tmp("gen_ser.jsonl")
